@@ -312,6 +312,11 @@ def check_main(pid, args):
         samples.extend(c["samples"][:max(0, 2 - have)])
     for k, pl in per_law.items():
         pl["distinct_nontrivial"] += len(pl.pop("_nt"))
+    # a law most of whose generated cases were rejected by construction decides nothing: never report that as "held"
+    for k, pl in per_law.items():
+        rej_l = sum(v for kk, v in rejected.items() if kk.startswith(k + "."))
+        if rej_l >= 10 and rej_l > pl["evaluations"]:
+            errors.append("law %s: %d generated cases were rejected by construction and only %d evaluated - the check would be vacuous (does the library refuse ordinary inputs?)" % (k, rej_l, pl["evaluations"]))
 
     # 3. known findings: replay each open entry's stored reproduction (without exclusions)
     kf_lines = []
